@@ -2364,6 +2364,36 @@ def _enclosing_guard(node_ast, stop, atom_of):
     return boolx.And(*parts) if parts else boolx.TRUE
 
 
+def _data_per_group(repo, qn):
+    """True if the producer of the groups consumed by iterator qn computes approximation data per group,
+    False if one data object is shared by all groups, None if not recognised."""
+    if 'uncolored' not in qn:
+        fp = repo.func(AS, 'ApproximationScheme._init_colored_approximations')
+        cp = Ctx(fp)
+        prods = [c.args[0] for c in astx.calls(fp.node) if astx.callee_attr(c) == 'append' and
+                 astx.path(astx.receiver(c)) == 'self._colored_approx_groups' and len(c.args) == 1 and
+                 isinstance(c.args[0], ast.Tuple)]
+        if len(prods) != 1:
+            return None
+        lp = astx.enclosing(prods[0], (ast.For,))
+        if lp is None:
+            return None
+        body = set(cp.g.body_nodes(lp))
+        pn = cp.g.nodes_of(astx.stmt_of(prods[0]))[0]
+        for e in prods[0].elts:
+            if isinstance(e, ast.Name):
+                ds = cp.rd.defs(pn, e.id)
+                if ds and all(d.kind == 'stmt' and isinstance(d.ast, ast.Assign) and isinstance(d.ast.value, ast.Call)
+                              and astx.callee_attr(d.ast.value) == '_get_approx_data' for d in ds):
+                    return any(d in body for d in ds)
+        return None
+    fp = repo.func(AS, 'ApproximationScheme._init_approximations')
+    cs_ = [c for c in astx.calls(fp.node) if astx.callee_attr(c) == '_get_approx_data']
+    if not cs_:
+        return None
+    return all(astx.enclosing(c, (ast.For,)) is not None for c in cs_)
+
+
 @rule('C12.pipeline', floor=2)
 def pipeline(repo, out):
     """Both column iterators pass every point result through _transform_result exactly once and multiply it by _get_multiplier(data of the same group) whenever that multiplier differs from 1."""
@@ -2428,6 +2458,28 @@ def pipeline(repo, out):
                     problem = (m.ast, f'`{R}` must be multiplied by the multiplier')
                     break
                 M = m.ast.value.id
+                # multiplier computed once, ahead of the loop over the approximation groups
+                outer = loop[-1]
+                ohdr = g.nodes_of(outer)[0]
+                obody = set(g.body_nodes(outer))
+                mdefs = cx.rd.defs(m, M)
+                if mdefs and all(d not in obody and d.kind == 'stmt' and isinstance(d.ast, ast.Assign) and
+                                 any(astx.callee_attr(c_) == '_get_multiplier' for c_ in astx.calls(d.ast.value))
+                                 for d in mdefs):
+                    per_group = _data_per_group(repo, qn)
+                    varies = any(ohdr in _iteration_identity(cx, astx.names(astx.arg(rc, 2, 'data') or ast.Tuple(elts=[])), rn)
+                                 for rn, rc in runs)
+                    if per_group is False:
+                        continue    # every group carries the same data object: one multiplier fits all
+                    if per_group and varies:
+                        d0 = sorted(mdefs, key=lambda d: d.id)[0]
+                        problem = (d0.ast, f'`{M}` is computed once before the loop over the approximation groups, but '
+                                   f'every group carries its own approximation data (own complex step): columns of '
+                                   f'later groups are scaled with the multiplier of the first group')
+                        break
+                    out.unsure(fn, m.ast, f'`{M}` is computed outside the group loop')
+                    problem = 'unsure'
+                    break
                 sd = cx.single_def(m, M)
                 if not sd or not (isinstance(sd[0], ast.Call) and astx.callee_attr(sd[0]) == '_get_multiplier' and
                                   len(sd[0].args) == 1 and isinstance(sd[0].args[0], ast.Name)):
@@ -2934,7 +2986,7 @@ def step_scale(repo, out):
 
 
 # =========================================================================== C12.colored-wrt
-@rule('C12.colored-wrt', floor=1)
+@rule('C12.colored-wrt', floor=2)
 def colored_wrt(repo, out):
     """The (wrt, meta) pair whose approximation data is shared by all colour groups is drawn from the coloured wrt set, not from the unfiltered _wrt_meta table."""
     fp = repo.func(AS, 'ApproximationScheme._init_colored_approximations')
@@ -2952,6 +3004,28 @@ def colored_wrt(repo, out):
     calls = _call_nodes(g, lambda c: astx.callee_attr(c) == '_get_approx_data' and astx.path(astx.receiver(c)) == 'self')
     if not calls:
         raise AnalysisError(f'{fp.ident}: no self._get_approx_data call')
+    # the shared data must be bound whenever a colour group is appended
+    prods = [c for c in astx.calls(fp.node) if astx.callee_attr(c) == 'append' and
+             astx.path(astx.receiver(c)) == 'self._colored_approx_groups' and len(c.args) == 1 and
+             isinstance(c.args[0], ast.Tuple)]
+    for pc in prods:
+        pn = g.nodes_of(astx.stmt_of(pc))[0]
+        for e in pc.args[0].elts:
+            if not isinstance(e, ast.Name):
+                continue
+            ds = [d for d in g.nodes if d.kind == 'stmt' and isinstance(d.ast, ast.Assign) and
+                  isinstance(d.ast.value, ast.Call) and astx.callee_attr(d.ast.value) == '_get_approx_data' and
+                  any(isinstance(t, ast.Name) and t.id == e.id for t in d.ast.targets)]
+            if not ds:
+                continue
+            w = g.path([g.entry], [pn], avoid=ds, labels=cfgm.noexc)
+            if w is not None:
+                out.bad(fp, ds[0].ast, f'`{e.id}` is only bound when some wrt of THIS scheme is coloured; a scheme '
+                        f'without coloured wrts (e.g. the fd scheme of a component whose colouring was declared with '
+                        f'method="cs" and that also has a plain fd partial) reaches the append with `{e.id}` unbound '
+                        f'(UnboundLocalError) instead of building no colour groups', key='data-unbound')
+            else:
+                out.ok(fp, ds[0].ast, f'`{e.id}` is bound on every path that appends a colour group')
     for n, c in calls:
         W, M = astx.arg(c, 1, 'wrt'), astx.arg(c, 2, 'meta')
         key = 'data-wrt-origin'
@@ -3030,6 +3104,184 @@ def colored_wrt(repo, out):
         else:
             out.ok(fp, c, f'`{W.id}` comes from self._wrt_meta but the call is only reached when '
                    f'{sorted(wm)[0]} is None or contains it')
+
+
+# =========================================================================== C12.unscaled
+_APPROX_CALLERS = (
+    ('openmdao/core/explicitcomponent.py', True),
+    ('openmdao/core/implicitcomponent.py', True),
+    ('openmdao/core/component.py', True),
+    ('openmdao/core/group.py', False),
+)
+
+
+@rule('C12.unscaled', floor=4)
+def unscaled(repo, out):
+    """Approximations of a component run with outputs AND residuals in the unscaled state (the FD base point current_coeff*residuals is mixed with residuals returned by run_apply_nonlinear, which are physical); group approximations need the outputs unscaled."""
+    for rel, is_comp in _APPROX_CALLERS:
+        m = repo.module(rel)
+        for f in m.funcs.values():
+            for c in astx.calls(f.node):
+                if astx.callee_attr(c) != 'compute_approximations' or not c.args or astx.path(c.args[0]) != 'self':
+                    continue
+                ctxs = []
+                for a in astx.ancestors(c):
+                    if a is f.node:
+                        break
+                    if isinstance(a, ast.With):
+                        for it in a.items:
+                            ce = it.context_expr
+                            if isinstance(ce, ast.Call) and astx.callee_attr(ce) == '_unscaled_context' and \
+                                    astx.path(astx.receiver(ce)) == 'self':
+                                ctxs.append(ce)
+                if not ctxs:
+                    continue    # called in the unscaled state by contract (root model, check_partials)
+                have = {'outputs': set(), 'residuals': set()}
+                odd = False
+                for ce in ctxs:
+                    for i, nm in enumerate(('outputs', 'residuals')):
+                        a = astx.arg(ce, i, nm)
+                        if a is None:
+                            continue
+                        if not isinstance(a, (ast.List, ast.Tuple)):
+                            odd = True
+                            continue
+                        have[nm] |= {astx.path(x) for x in a.elts}
+                if odd:
+                    out.unsure(f, ctxs[0], 'vector lists of _unscaled_context are not literals')
+                    continue
+                need = [('outputs', 'self._outputs')] + ([('residuals', 'self._residuals')] if is_comp else [])
+                missing = [v for k, v in need if v not in have[k]]
+                if missing:
+                    what = ('the FD base point current_coeff * self._residuals is read in the scaled state while the '
+                            'perturbed residuals returned by run_apply_nonlinear are physical: forward/backward '
+                            'partials are wrong by (1 - 1/res_ref) * residual / step whenever the residual is non-zero'
+                            if missing == ['self._residuals'] else
+                            'the approximation reads scaled values where the perturbed runs return physical ones')
+                    out.bad(f, ctxs[0], f'{", ".join(missing)} not in the unscaled context around compute_approximations: '
+                            f'{what}', key='unscaled-' + '-'.join(x.split('.')[-1] for x in missing))
+                else:
+                    out.ok(f, ctxs[0], 'approximation runs with ' + ', '.join(v for _, v in need) + ' unscaled')
+
+
+# =========================================================================== C12.seed-ranges
+@rule('C12.seed-ranges', floor=1)
+def seed_ranges(repo, out):
+    """The RangeMapper that turns coloured column indices into seed variables is built from the per-wrt number of coloured columns (the amount the coloured column counter advances), not from another range."""
+    fp = repo.func(AS, 'ApproximationScheme._init_colored_approximations')
+    cp = Ctx(fp)
+    g = cp.g
+    mappers = {}
+    for st in astx.walk_stmts(fp.node.body):
+        if isinstance(st, ast.Assign) and len(st.targets) == 1 and isinstance(st.targets[0], ast.Name) and \
+                isinstance(st.value, ast.Call) and astx.callee_attr(st.value) == 'create' and \
+                (astx.path(astx.receiver(st.value)) or '').endswith('RangeMapper') and st.value.args and \
+                isinstance(st.value.args[0], ast.Name):
+            mappers[st.targets[0].id] = st.value.args[0].id
+    used = [c for c in astx.calls(fp.node) if astx.callee_attr(c) == 'inds2keys' and
+            isinstance(astx.receiver(c), ast.Name) and astx.receiver(c).id in mappers]
+    if not used:
+        raise AnalysisError(f'{fp.ident}: no RangeMapper.inds2keys(<coloured columns>) found')
+    for uc in used:
+        lst = mappers[astx.receiver(uc).id]
+        apps = [c for c in astx.calls(fp.node) if astx.callee_attr(c) == 'append' and
+                isinstance(astx.receiver(c), ast.Name) and astx.receiver(c).id == lst and len(c.args) == 1 and
+                isinstance(c.args[0], ast.Tuple) and len(c.args[0].elts) == 2]
+        if not apps:
+            out.unsure(fp, uc, f'cannot see how `{lst}` is filled')
+            continue
+        for ac in apps:
+            size = ac.args[0].elts[1]
+            loop = astx.enclosing(ac, (ast.For,))
+            if loop is None:
+                out.unsure(fp, ac, 'range list is not filled in a loop')
+                continue
+            # the coloured column counter: `CE += ADV` with CE the upper bound of a slice store in the same loop
+            uppers = set()
+            stores = []
+            for st in astx.walk_stmts(loop.body):
+                if isinstance(st, ast.Assign) and len(st.targets) == 1 and isinstance(st.targets[0], ast.Subscript) and \
+                        isinstance(st.targets[0].slice, ast.Slice) and isinstance(st.targets[0].slice.upper, ast.Name):
+                    uppers.add(st.targets[0].slice.upper.id)
+                    stores.append(st)
+            advs = [st for st in astx.walk_stmts(loop.body) if _aug(st, getattr(getattr(st, 'target', None), 'id', None) or
+                                                                   (st.targets[0].id if isinstance(st, ast.Assign) and
+                                                                    len(st.targets) == 1 and
+                                                                    isinstance(st.targets[0], ast.Name) else ''))
+                    and (st.target.id if isinstance(st, ast.AugAssign) else st.targets[0].id) in uppers]
+            advs = [a for a in advs if _aug(a, a.target.id if isinstance(a, ast.AugAssign) else a.targets[0].id)[0] is ast.Add]
+            if len(advs) != 1:
+                out.unsure(fp, ac, 'coloured column counter not recognised')
+                continue
+            adv_st = advs[0]
+            adv = _aug(adv_st, adv_st.target.id if isinstance(adv_st, ast.AugAssign) else adv_st.targets[0].id)[1]
+            an = g.nodes_of(astx.stmt_of(ac))[0]
+            sz, sat = cp.resolve(size, an)
+            key = 'seed-range-size'
+            if _dump(sz) == _dump(adv) and all(cp.rd.defs(sat, nm) == cp.rd.defs(g.nodes_of(adv_st)[0], nm)
+                                             for nm in astx.names(adv)):
+                out.ok(fp, ac, f'range size `{astx.src(size)}` is the number of coloured columns of the wrt')
+                continue
+            stored = {_dump(st.value) for st in stores}
+            if isinstance(sz, ast.Call) and astx.callee_attr(sz) == 'len' and len(sz.args) == 1 and _dump(sz.args[0]) in stored:
+                out.ok(fp, ac, 'range size is the length of the column block just stored')
+                continue
+            if isinstance(sz, ast.BinOp) and isinstance(sz.op, ast.Sub) and isinstance(adv, ast.BinOp) and \
+                    isinstance(adv.op, ast.Sub) and all(isinstance(x, ast.Name) for x in (sz.left, sz.right, adv.left, adv.right)):
+                b1 = {frozenset(d.id for d in cp.rd.defs(sat, x.id)) for x in (sz.left, sz.right)}
+                b2 = {frozenset(d.id for d in cp.rd.defs(g.nodes_of(adv_st)[0], x.id)) for x in (adv.left, adv.right)}
+                if b1 != b2:
+                    out.bad(fp, ac, f'the seed RangeMapper is given `{astx.src(size)}` entries for this wrt, but the wrt '
+                            f'occupies `{astx.src(adv)}` coloured columns (they differ for a design variable with '
+                            f'indices): every later wrt is looked up in the wrong range, its columns are run with the '
+                            f'seeds of another variable and relevance skips the systems it feeds (zero columns)',
+                            key=key)
+                    continue
+            out.unsure(fp, ac, f'cannot relate `{astx.src(size)}` to the coloured column count `{astx.src(adv)}`')
+
+
+# =========================================================================== C12.stale-data
+@rule('C12.stale-data', floor=2)
+def stale_data(repo, out):
+    """Approximation data that depends on the current VALUE of the wrt variable must not be cached across linearisations."""
+    fg = repo.func(AS, 'ApproximationScheme._get_approx_groups')
+    cg = Ctx(fg)
+    inits = _call_nodes(cg.g, lambda c: astx.callee_attr(c) == '_init_approximations' and astx.path(astx.receiver(c)) == 'self')
+    if not inits:
+        raise AnalysisError(f'{fg.ident}: no self._init_approximations call')
+    # is there a path through _get_approx_groups that skips regeneration?
+    cached = cg.g.path([cg.g.entry], [cg.g.exit], avoid=[n for n, _ in inits], labels=cfgm.noexc) is not None
+    for rel, cls in ((FD, 'FiniteDifference'), (CS, 'ComplexStep')):
+        fn = repo.func(rel, f'{cls}._get_approx_data')
+        reads = [c for c in astx.calls(fn.node) if astx.callee_attr(c) in ('_abs_get_val', 'get_val', '_get_val')]
+        if not reads:
+            out.ok(fn, fn.node, f'{cls}: approximation data does not read variable values')
+            continue
+        if not cached:
+            out.ok(fg, inits[0][0].ast, 'approximation groups are regenerated on every call')
+            continue
+        # accepted repairs: the scheme drops its cache itself (override, or _reset() / _approx_groups = None
+        # before the column iteration), possibly only for value-dependent step_calc settings
+        repaired = None
+        if repo.module(rel).funcs.get(f'{cls}._get_approx_groups') is not None:
+            repaired = f'{cls} overrides _get_approx_groups'
+        fc = repo.module(rel).funcs.get(f'{cls}.compute_approx_col_iter')
+        if fc is not None and repaired is None:
+            for st in astx.walk_stmts(fc.node.body):
+                if (isinstance(st, ast.Expr) and isinstance(st.value, ast.Call) and astx.call_name(st.value) == 'self._reset') \
+                        or (isinstance(st, ast.Assign) and any(astx.path(t) == 'self._approx_groups' for t in st.targets)
+                            and _const(st.value, None)):
+                    repaired = f'{cls}.compute_approx_col_iter drops the cached groups'
+        if repaired is None and any(astx.mentions(n.ast.test, 'step_calc') for n in cg.g.nodes if n.kind == 'test'):
+            repaired = '_get_approx_groups looks at step_calc'
+        if repaired:
+            out.ok(fn, reads[0], repaired)
+            continue
+        out.bad(fg, inits[-1][0].ast,
+                f'{cls}._get_approx_data reads the current value of the wrt variable (`{astx.src(reads[0])}`, relative '
+                f'step_calc) but the groups that embed its result are built only when self._approx_groups is None: '
+                f'the relative step is frozen at the value the variable had at the first linearisation (minimum_step '
+                f'forever if it was 0 then) and no longer follows the variable', key=f'cached-data-{cls}')
 
 
 # =========================================================================== C12.result-buffer
@@ -3151,6 +3403,25 @@ selftest(
            '            data = self._get_approx_data(system, wrt, meta)\n            break\n', 'C12.colored-wrt'),
     Mutant('colored-data-filter-and', AS, '            if wrt_matches is None or wrt in wrt_matches:\n                # data is the same',
            '            if wrt_matches is None or wrt not in wrt_matches:\n                # data is the same', 'C12.colored-wrt'),
+    # ---- unscaled
+    Mutant('unscaled-explicit-residuals-dropped', 'openmdao/core/explicitcomponent.py',
+           "            with self._unscaled_context(outputs=[self._outputs], residuals=[self._residuals]):\n                # Computing the approximation",
+           "            with self._unscaled_context(outputs=[self._outputs]):\n                # Computing the approximation", 'C12.unscaled'),
+    Mutant('unscaled-component-residuals-dropped', 'openmdao/core/component.py',
+           "        with self._unscaled_context(outputs=[self._outputs], residuals=[self._residuals]):\n            approximation.compute_approximations(self, jac=jac)",
+           "        with self._unscaled_context(outputs=[self._outputs]):\n            approximation.compute_approximations(self, jac=jac)", 'C12.unscaled'),
+    Mutant('unscaled-explicit-outputs-dropped', 'openmdao/core/explicitcomponent.py',
+           "            with self._unscaled_context(outputs=[self._outputs], residuals=[self._residuals]):\n                # Computing the approximation",
+           "            with self._unscaled_context(residuals=[self._residuals]):\n                # Computing the approximation", 'C12.unscaled'),
+    Mutant('unscaled-group-outputs-dropped', 'openmdao/core/group.py',
+           "                    with self._unscaled_context(outputs=[self._outputs]):\n                        for approximation",
+           "                    with self._unscaled_context(residuals=[self._residuals]):\n                        for approximation", 'C12.unscaled'),
+    Mutant('pipeline-uncolored-multiplier-hoisted', AS, '            mult = self._get_multiplier(data)\n\n            jidx_iter', '            jidx_iter', 'C12.pipeline',
+           also=[(AS, '        # now do uncolored solves\n', '        mult = self._get_multiplier(approx_groups[0][1]) if approx_groups else 1.0\n')]),
+    Mutant('cs-save-outputs-live-view', CS, 'saved_outputs = system._outputs.asarray(copy=True)', 'saved_outputs = system._outputs.asarray()', 'C12.cs-save'),
+    # ---- stale-data (the FiniteDifference instance fires on today's tree; sibling instance)
+    Mutant('cs-data-reads-value-and-is-cached', CS, "        step = meta['step']\n        step *= 1j",
+           "        step = meta['step'] * abs(system._outputs._abs_get_val(wrt)).max()\n        step *= 1j", 'C12.stale-data'),
     # ---- result-buffer
     Mutant('buffer-colored-live-view', AS, 'results_array = vec.asarray(copy=True)', 'results_array = vec.asarray()', 'C12.result-buffer'),
     Mutant('buffer-uncolored-live-view', AS, 'results_array = system._outputs.asarray(copy=True) if total_or_semi',
@@ -3381,6 +3652,25 @@ selftest(
          '                result = self._transform_result(result)\n\n                if mult != 1.0:\n                    result *= mult\n\n'
          '                if total:\n                    result = self._get_total_result(result, tot_result)\n\n                tosend = (fd_count, result)\n\n'
          '                if False:\n                    raise NotImplementedError('),
+    Twin('twin-unscaled-positional', 'openmdao/core/explicitcomponent.py',
+         "            with self._unscaled_context(outputs=[self._outputs], residuals=[self._residuals]):\n                # Computing the approximation",
+         "            with self._unscaled_context([self._outputs], [self._residuals]):\n                # Computing the approximation"),
+    Twin('twin-unscaled-keyword-order', 'openmdao/core/component.py',
+         "        with self._unscaled_context(outputs=[self._outputs], residuals=[self._residuals]):\n            approximation.compute_approximations(self, jac=jac)",
+         "        with self._unscaled_context(residuals=(self._residuals,), outputs=(self._outputs,)):\n            approximation.compute_approximations(self, jac=jac)"),
+    Twin('twin-colored-multiplier-hoisted', AS,
+         '        for data, jcols, vec_ind_list, nzrows, seed_vars, in colored_approx_groups:\n            mult = self._get_multiplier(data)\n',
+         '        mult = self._get_multiplier(colored_approx_groups[0][0]) if colored_approx_groups else 1.0\n        for data, jcols, vec_ind_list, nzrows, seed_vars, in colored_approx_groups:\n'),
+    # accepted repair idioms of the four findings on today's tree (must be decided ok, not undecided)
+    Twin('repair-implicit-unscale-residuals', 'openmdao/core/implicitcomponent.py',
+         "            with self._unscaled_context(outputs=[self._outputs]):\n                # Computing the approximation",
+         "            with self._unscaled_context(outputs=[self._outputs], residuals=[self._residuals]):\n                # Computing the approximation"),
+    Twin('repair-seed-range-size', AS, 'wrt_ranges.append((abs_wrt, stop - start))', 'wrt_ranges.append((abs_wrt, cend - cstart))'),
+    Twin('repair-seed-range-len', AS, 'wrt_ranges.append((abs_wrt, stop - start))', 'wrt_ranges.append((abs_wrt, len(rng)))'),
+    Twin('repair-no-coloured-wrt-returns', AS, '                data = self._get_approx_data(system, wrt, meta)\n                break\n',
+         '                data = self._get_approx_data(system, wrt, meta)\n                break\n        else:\n            return\n'),
+    Twin('repair-relative-step-not-cached', FD, '        if not self._wrt_meta:\n            return\n\n        self._starting_outs =',
+         "        if not self._wrt_meta:\n            return\n\n        if any(m['step_calc'] != 'abs' for m in self._wrt_meta.values()):\n            self._reset()\n\n        self._starting_outs ="),
     Twin('twin-fd-zero-literal', FD, '        else:\n            results_array[:] = 0.\n\n        # Run', '        else:\n            results_array[:] = 0.0\n\n        # Run'),
     Twin('twin-cs-loop-variable', CS, 'for tup in self._compute_approx_col_iter(system, under_cs=True):\n                yield tup',
          'for item in self._compute_approx_col_iter(system, under_cs=True):\n                yield item'),
